@@ -22,7 +22,8 @@ REQUIRE = {'streams_drop': 50, 'streams_nondrop': 50, 'streams_with_offset': 50,
            'gaps_exactly_five_frames': 3, 'gaps_open': 20, 'last_caption_four_seconds': 50,
            'flash_cue_streams': 10, 'times_compared': 500, 'captions_split_same_times': 10,
            'streams_beginning_before_the_offset': 20, 'reads_with_lang_option': 50,
-           'reads_by_a_reader_object_used_before': 100, 'streams_with_a_load_that_loads_nothing': 100, 'streams_with_a_fractional_offset': 100}
+           'reads_by_a_reader_object_used_before': 100, 'streams_with_a_load_that_loads_nothing': 100, 'streams_with_a_fractional_offset': 100,
+           'loads_of_over_a_hundred_words_across_a_minute_or_hour_of_timecode': 100}
 CW = Fraction(1001000, 30)        # one code word at 29.97 fps, in microseconds
 
 
@@ -63,9 +64,29 @@ def _probe(drop, extra_gap, offset, start_frame):
     return {'prog': prog, 'offset': offset, 'start_frame': start_frame, 'min_gap': 0}
 
 
+def _long_probe(drop, doubled, nrows, start_frame):
+    """A short caption, then one of `nrows` full rows (more than a hundred code words) whose load line begins
+    shortly before a full minute / hour of timecode and whose End Of Caption falls after it."""
+    row = lambda r, text: {'row': r, 'col': 0, 'to': 0, 'pac_italic': False, 'pac_underline': False,
+                           'pac_color': None, 'items': [['c', ch] for ch in text]}
+    full = 'abcdefghij klmnopqrs tuvwxyz ABCD'[:32]
+    prog = {'doubled': doubled, 'drop': drop, 'captions': [
+        {'rows': [row(15, 'first')], 'edm': 'none', 'enm': True, 'gap': 0},
+        {'rows': [row(r, full) for r in range(1, nrows + 1)], 'edm': 'separate', 'edm_gap': 60, 'enm': True, 'gap': 0}]}
+    return {'kind': 'long-load', 'prog': prog, 'offset': 0, 'start_frame': start_frame, 'min_gap': 10}
+
+
 def cases(ctx):
     rng = ctx.rng('c06')
     idx = 0
+    for drop in (False, True):
+        for doubled in (False, True):
+            for nrows in (5, 8, 12):
+                for boundary in (1800, 18000, 108000):
+                    for back in (25, 60, 100, 140):
+                        if ctx.mine(idx):
+                            yield _long_probe(drop, doubled, nrows, boundary - back)
+                        idx += 1
     for drop in (False, True):
         for extra in range(0, 4):
             for offset, sf in ((0, 30), (0, 29), (1, 45), (3600, 108000 + 17)):
@@ -143,6 +164,8 @@ def check(case, ctx):
     doc = G.scc_doc(lines)
     caps, gaps = model(lines, prog['drop'], case['offset'])
     ctx.count('streams_drop' if prog['drop'] else 'streams_nondrop')
+    if case.get('kind') == 'long-load':
+        ctx.count('loads_of_over_a_hundred_words_across_a_minute_or_hour_of_timecode')
     if any(not c['rows'] for c in prog['captions']):
         ctx.count('streams_with_a_load_that_loads_nothing')
     if case['offset']:
